@@ -12,70 +12,70 @@ Definition ct_version (ct : container) : N := match ct with CV1 => 1 | CV2 _ _ _
 Section Main.
   Variable hdrdec : bytes -> option (list bytes * N).
 
-  Lemma arch_archive_ok o roots bs npad :
-    arch_ok hdrdec o roots bs npad -> archive_ok no_hash hdrdec (scan_opts o) roots bs.
+  Lemma arch_archive_ok o ro bs npad :
+    arch_ok hdrdec o ro bs npad -> archive_ok_o no_hash hdrdec (scan_opts o) ro bs.
   Proof.
     intros [Hh Hm H63 Hb Hn]. repeat split; try assumption.
     - cbn [scan_opts o_maxs]. rewrite Forall_forall in *. intros b Hin. eapply rblock_block_ok. apply Hb. exact Hin.
     - cbn. discriminate.
   Qed.
 
-  (* the front-to-back scan of the same file returns the roots and the section list *)
-  Theorem scan_of_file o ct roots bs npad file :
-    file_ok hdrdec o ct roots bs npad file ->
-    br_read_all no_hash hdrdec (scan_opts o) file = Ok (ct_version ct, roots, mkscan bs EEof).
+  (* the front-to-back scan of the same file returns the ro and the section list *)
+  Theorem scan_of_file o ct ro bs npad file :
+    file_ok hdrdec o ct ro bs npad file ->
+    br_read_all no_hash hdrdec (scan_opts o) file = Ok (ct_version ct, hdr_roots ro, mkscan bs EEof).
   Proof.
-    intros Hfo. pose proof (arch_archive_ok o roots bs npad (fo_arch _ _ _ _ _ _ _ Hfo)) as Hao.
+    intros Hfo. pose proof (arch_archive_ok o ro bs npad (fo_arch _ _ _ _ _ _ _ Hfo)) as Hao.
     pose proof (ao_npad _ _ _ _ _ (fo_arch _ _ _ _ _ _ _ Hfo)) as Hz.
     destruct ct as [|chi clo dpad ipad emb].
     - pose proof (fo_file _ _ _ _ _ _ _ Hfo) as Hf. cbn [car_file] in Hf. inversion Hf; subst file.
       apply br_read_all_v1_np; assumption.
-    - destruct (car_file_v2 roots bs npad chi clo dpad ipad emb file (fo_file _ _ _ _ _ _ _ Hfo)) as (ib & Hfile & _).
+    - destruct (car_file_v2 ro bs npad chi clo dpad ipad emb file (fo_file _ _ _ _ _ _ _ Hfo)) as (ib & Hfile & _).
       destruct (fo_v2 _ _ _ _ _ _ _ Hfo) as (Hchi & Hclo & Hmh & Hpr & _).
       pose proof (fo_len _ _ _ _ _ _ _ Hfo) as Hl. rewrite Hfile in *.
       apply br_read_all_v2; assumption.
   Qed.
 
   (* C07, blockstore.ReadOnly *)
-  Theorem ro_refines_scan o ct roots bs npad file sup si :
-    file_ok hdrdec o ct roots bs npad file -> supplied_ok hdrdec sup si roots bs npad ->
+  Theorem ro_refines_scan o ct ro bs npad file sup si :
+    file_ok hdrdec o ct ro bs npad file -> supplied_ok hdrdec sup si ro bs npad ->
     exists s, ro_open hdrdec o file si = Ok s /\
-      br_read_all no_hash hdrdec (scan_opts o) file = Ok (ct_version ct, roots, mkscan bs EEof) /\
+      br_read_all no_hash hdrdec (scan_opts o) file = Ok (ct_version ct, hdr_roots ro, mkscan bs EEof) /\
       ro_keys hdrdec s = KKeys (ref_keys (q_whole o) bs) None /\
-      ro_roots hdrdec s = OKeys roots /\
+      ro_roots hdrdec s = OKeys (hdr_roots ro) /\
       forall key kp, cid_parse key = Some kp ->
         getsize_spec o key kp bs (ro_getsize s key) /\
         (id_guard o (index_wid o ct sup) kp = true ->
            ro_has s key = OBool (ref_has o key kp bs) /\ get_spec o key kp bs (ro_get s key)).
   Proof.
-    intros Hfo Hsup. destruct (ro_open_ok hdrdec o ct roots bs npad file sup si Hfo Hsup) as (s & Hs & Hop).
+    intros Hfo Hsup. destruct (ro_open_ok hdrdec o ct ro bs npad file sup si Hfo Hsup) as (s & Hs & Hop).
     pose proof (fo_arch _ _ _ _ _ _ _ Hfo) as Ha.
-    exists s. split; [exact Hs|]. split; [apply (scan_of_file o ct roots bs npad file Hfo)|].
-    split; [apply (ro_keys_spec hdrdec s o (index_wid o ct sup) roots bs npad Ha Hop (file_payload_bound hdrdec o ct roots bs npad file Hfo))|].
-    split; [apply (ro_roots_spec hdrdec s o (index_wid o ct sup) roots bs npad Ha Hop)|].
-    intros key kp Hk. split; [apply (ro_getsize_spec hdrdec s o (index_wid o ct sup) roots bs npad key kp Ha Hop Hk)|].
-    intros Hg. split; [apply (ro_has_spec hdrdec s o _ roots bs npad key kp Ha Hop Hk Hg)|apply (ro_get_spec hdrdec s o _ roots bs npad key kp Ha Hop Hk Hg)].
+    exists s. split; [exact Hs|]. split; [apply (scan_of_file o ct ro bs npad file Hfo)|].
+    split; [apply (ro_keys_spec hdrdec s o (index_wid o ct sup) ro bs npad Ha Hop (file_payload_bound hdrdec o ct ro bs npad file Hfo))|].
+    split; [apply (ro_roots_spec hdrdec s o (index_wid o ct sup) ro bs npad Ha Hop)|].
+    intros key kp Hk. split; [apply (ro_getsize_spec hdrdec s o (index_wid o ct sup) ro bs npad key kp Ha Hop Hk)|].
+    intros Hg. split; [apply (ro_has_spec hdrdec s o _ ro bs npad key kp Ha Hop Hk Hg)|apply (ro_get_spec hdrdec s o _ ro bs npad key kp Ha Hop Hk Hg)].
   Qed.
 
   (* C07, storage.OpenReadable *)
-  Theorem sto_refines_scan o ct roots bs npad file :
-    file_ok hdrdec o ct roots bs npad file ->
+  Theorem sto_refines_scan o ct ro bs npad file :
+    file_ok hdrdec o ct ro bs npad file ->
     exists s, sto_open hdrdec o file = Ok s /\
-      br_read_all no_hash hdrdec (scan_opts o) file = Ok (ct_version ct, roots, mkscan bs EEof) /\
-      sto_roots s = OKeys roots /\
+      br_read_all no_hash hdrdec (scan_opts o) file = Ok (ct_version ct, hdr_roots ro, mkscan bs EEof) /\
+      sto_roots s = OKeys (hdr_roots ro) /\
       forall key kp, cid_parse key = Some kp -> id_guard o (index_wid o ct None) kp = true ->
         ro_has s key = OBool (ref_has o key kp bs) /\ get_spec o key kp bs (sto_get s key).
   Proof.
-    intros Hfo. destruct (sto_open_ok hdrdec o ct roots bs npad file Hfo) as (s & Hs & Hop & Hr).
+    intros Hfo. destruct (sto_open_ok hdrdec o ct ro bs npad file Hfo) as (s & Hs & Hop & Hr).
     pose proof (fo_arch _ _ _ _ _ _ _ Hfo) as Ha.
-    exists s. split; [exact Hs|]. split; [apply (scan_of_file o ct roots bs npad file Hfo)|].
+    exists s. split; [exact Hs|]. split; [apply (scan_of_file o ct ro bs npad file Hfo)|].
     split; [unfold sto_roots; rewrite Hr; reflexivity|].
-    intros key kp Hk Hg. split; [apply (ro_has_spec hdrdec s o _ roots bs npad key kp Ha Hop Hk Hg)|apply (sto_get_spec hdrdec s o _ roots bs npad key kp Ha Hop Hk Hg)].
+    intros key kp Hk Hg. split; [apply (ro_has_spec hdrdec s o _ ro bs npad key kp Ha Hop Hk Hg)|apply (sto_get_spec hdrdec s o _ ro bs npad key kp Ha Hop Hk Hg)].
   Qed.
 
   (* the two front-ends agree on every query (Get: on hash-consistent sections) *)
-  Theorem frontends_agree o ct roots bs npad file sup si s1 s2 :
-    file_ok hdrdec o ct roots bs npad file -> supplied_ok hdrdec sup si roots bs npad ->
+  Theorem frontends_agree o ct ro bs npad file sup si s1 s2 :
+    file_ok hdrdec o ct ro bs npad file -> supplied_ok hdrdec sup si ro bs npad ->
     ro_open hdrdec o file si = Ok s1 -> sto_open hdrdec o file = Ok s2 ->
     ro_roots hdrdec s1 = sto_roots s2 /\
     forall key kp, cid_parse key = Some kp ->
@@ -83,8 +83,8 @@ Section Main.
       ro_has s1 key = ro_has s2 key /\ (consistent bs -> ro_get s1 key = sto_get s2 key).
   Proof.
     intros Hfo Hsup H1 H2.
-    destruct (ro_refines_scan o ct roots bs npad file sup si Hfo Hsup) as (s1' & E1 & _ & _ & Hr1 & Hq1).
-    destruct (sto_refines_scan o ct roots bs npad file Hfo) as (s2' & E2 & _ & Hr2 & Hq2).
+    destruct (ro_refines_scan o ct ro bs npad file sup si Hfo Hsup) as (s1' & E1 & _ & _ & Hr1 & Hq1).
+    destruct (sto_refines_scan o ct ro bs npad file Hfo) as (s2' & E2 & _ & Hr2 & Hq2).
     rewrite H1 in E1. inversion E1; subst s1'. rewrite H2 in E2. inversion E2; subst s2'.
     split; [rewrite Hr1, Hr2; reflexivity|].
     intros key kp Hk G1 G2. destruct (Hq1 key kp Hk) as [_ Hb]. destruct (Hb G1) as [Hh1 Hg1].
@@ -133,7 +133,7 @@ Definition ex_bs : list block :=
 Definition ex_roots : list bytes := [ex_cid 85 x01].
 Definition ex_ct : container := CV2 128 0 7 3 (Some (1025, true)).
 Definition ex_file : bytes :=
-  match car_file ex_ct ex_roots ex_bs 0 with Some f => f | None => [] end.
+  match car_file ex_ct (Some ex_roots) ex_bs 0 with Some f => f | None => [] end.
 
 Lemma ex_roots_ok : roots_ok ex_roots.
 Proof.
@@ -141,10 +141,10 @@ Proof.
   exists (mkcid 1 85 18 (x01 :: zeros 31)). split; [apply ex_cid_ok; numgoal|reflexivity].
 Qed.
 
-Lemma ex_arch_ok storeid : arch_ok dec_header_canon (ex_opts storeid) ex_roots ex_bs 0.
+Lemma ex_arch_ok storeid : arch_ok dec_header_canon (ex_opts storeid) (Some ex_roots) ex_bs 0.
 Proof.
   split.
-  - apply hdr_good_canon. apply ex_roots_ok.
+  - apply (hdr_good_canon ex_roots). apply ex_roots_ok.
   - numgoal.
   - numgoal.
   - cbn [ex_opts q_maxs q_maxcid]. unfold ex_bs.
@@ -156,7 +156,7 @@ Proof.
   - left. reflexivity.
 Qed.
 
-Example ex_file_ok : file_ok dec_header_canon (ex_opts true) ex_ct ex_roots ex_bs 0 ex_file.
+Example ex_file_ok : file_ok dec_header_canon (ex_opts true) ex_ct (Some ex_roots) ex_bs 0 ex_file.
 Proof.
   split.
   - apply ex_arch_ok.
@@ -169,12 +169,12 @@ Qed.
 (* the same archive as a bare CARv1 with a caller-supplied sorted index *)
 Example ex_supplied_ok :
   supplied_ok dec_header_canon (Some (mkq false true false 33554432 8388608 2048 1024))
-    (match gen_flat dec_header_canon (mkq false true false 33554432 8388608 2048 1024) 0 (payload_np ex_roots ex_bs 0)
-     with Ok i => Some i | Err _ => None end) ex_roots ex_bs 0.
+    (match gen_flat dec_header_canon (mkq false true false 33554432 8388608 2048 1024) 0 (payload_np (Some ex_roots) ex_bs 0)
+     with Ok i => Some i | Err _ => None end) (Some ex_roots) ex_bs 0.
 Proof.
   split.
   - split.
-    + apply hdr_good_canon. apply ex_roots_ok.
+    + apply (hdr_good_canon ex_roots). apply ex_roots_ok.
     + numgoal.
     + numgoal.
     + cbn [q_maxs q_maxcid]. unfold ex_bs.
@@ -210,19 +210,19 @@ Qed.
    the scan yields *)
 Definition rf_bs : list block := [(ex_idcid, [x61])].
 Definition rf_ct : container := CV2 0 0 0 0 (Some (1025, false)).
-Definition rf_file : bytes := match car_file rf_ct [] rf_bs 0 with Some f => f | None => [] end.
+Definition rf_file : bytes := match car_file rf_ct (Some []) rf_bs 0 with Some f => f | None => [] end.
 
-Lemma rf_arch_ok : arch_ok dec_header_canon (ex_opts true) [] rf_bs 0.
+Lemma rf_arch_ok : arch_ok dec_header_canon (ex_opts true) (Some []) rf_bs 0.
 Proof.
   split.
-  - apply hdr_good_canon. split; [constructor|numgoal].
+  - apply (hdr_good_canon []). split; [constructor|numgoal].
   - numgoal.
   - numgoal.
   - apply Forall_cons; [apply ex_rblock_id|apply Forall_nil].
   - left. reflexivity.
 Qed.
 
-Lemma rf_file_ok : file_ok dec_header_canon (ex_opts true) rf_ct [] rf_bs 0 rf_file.
+Lemma rf_file_ok : file_ok dec_header_canon (ex_opts true) rf_ct (Some []) rf_bs 0 rf_file.
 Proof.
   split.
   - apply rf_arch_ok.
@@ -233,34 +233,34 @@ Proof.
 Qed.
 
 Theorem has_refuted :
-  exists o ct roots bs npad file key kp s,
-    file_ok dec_header_canon o ct roots bs npad file /\
+  exists o ct ro bs npad file key kp s,
+    file_ok dec_header_canon o ct ro bs npad file /\
     ro_open dec_header_canon o file None = Ok s /\ cid_parse key = Some kp /\
     ref_has o key kp bs = true /\ ro_has s key = OBool false /\ ro_get s key = OErr ENotFound.
 Proof.
-  exists (ex_opts true), rf_ct, [], rf_bs, 0, rf_file, ex_idcid, (mkcid 1 85 0 [x61]).
+  exists (ex_opts true), rf_ct, (Some []), rf_bs, 0, rf_file, ex_idcid, (mkcid 1 85 0 [x61]).
   destruct (ro_open dec_header_canon (ex_opts true) rf_file None) as [s|e] eqn:E; [|vm_compute in E; discriminate].
   exists s. split; [exact rf_file_ok|]. split; [reflexivity|].
   vm_compute in E. inversion E; subst s. vm_compute. repeat split.
 Qed.
 
 Theorem sto_has_refuted :
-  exists o ct roots bs npad file key kp s,
-    file_ok dec_header_canon o ct roots bs npad file /\
+  exists o ct ro bs npad file key kp s,
+    file_ok dec_header_canon o ct ro bs npad file /\
     sto_open dec_header_canon o file = Ok s /\ cid_parse key = Some kp /\
     ref_has o key kp bs = true /\ ro_has s key = OBool false /\ sto_get s key = OErr ENotFound.
 Proof.
-  exists (ex_opts true), rf_ct, [], rf_bs, 0, rf_file, ex_idcid, (mkcid 1 85 0 [x61]).
+  exists (ex_opts true), rf_ct, (Some []), rf_bs, 0, rf_file, ex_idcid, (mkcid 1 85 0 [x61]).
   destruct (sto_open dec_header_canon (ex_opts true) rf_file) as [s|e] eqn:E; [|vm_compute in E; discriminate].
   exists s. split; [exact rf_file_ok|]. split; [reflexivity|].
   vm_compute in E. inversion E; subst s. vm_compute. repeat split.
 Qed.
 
 (* (2) GetSize of an identity key no section carries, under StoreIdentityCIDs: a size, not not-found *)
-Lemma rg_file_ok : file_ok dec_header_canon (ex_opts true) CV1 [] [] 0 (payload_np [] [] 0).
+Lemma rg_file_ok : file_ok dec_header_canon (ex_opts true) CV1 (Some []) [] 0 (payload_np (Some []) [] 0).
 Proof.
   split.
-  - split; [apply hdr_good_canon; split; [constructor|numgoal]|numgoal|numgoal|constructor|left; reflexivity].
+  - split; [apply (hdr_good_canon []); split; [constructor|numgoal]|numgoal|numgoal|constructor|left; reflexivity].
   - reflexivity.
   - numgoal.
   - discriminate.
@@ -268,53 +268,61 @@ Proof.
 Qed.
 
 Theorem getsize_refuted :
-  exists o ct roots bs npad file key kp s,
-    file_ok dec_header_canon o ct roots bs npad file /\
+  exists o ct ro bs npad file key kp s,
+    file_ok dec_header_canon o ct ro bs npad file /\
     ro_open dec_header_canon o file None = Ok s /\ cid_parse key = Some kp /\
     ref_has o key kp bs = false /\ ro_has s key = OBool false /\ ro_get s key = OErr ENotFound /\
     ro_getsize s key = OSize 1.
 Proof.
-  exists (ex_opts true), CV1, [], [], 0, (payload_np [] [] 0), ex_idcid, (mkcid 1 85 0 [x61]).
-  destruct (ro_open dec_header_canon (ex_opts true) (payload_np [] [] 0) None) as [s|e] eqn:E; [|vm_compute in E; discriminate].
+  exists (ex_opts true), CV1, (Some []), [], 0, (payload_np (Some []) [] 0), ex_idcid, (mkcid 1 85 0 [x61]).
+  destruct (ro_open dec_header_canon (ex_opts true) (payload_np (Some []) [] 0) None) as [s|e] eqn:E; [|vm_compute in E; discriminate].
   exists s. split; [exact rg_file_ok|]. split; [reflexivity|].
   vm_compute in E. inversion E; subst s. vm_compute. repeat split.
 Qed.
 
 (* ---- the statements of props/C07.v, hypotheses spelled out, header decoder = the model's own ------ *)
-Definition limits_ok (o : qopts) (roots : list bytes) (bs : list block) (npad : N) : Prop :=
-  blen (enc_header (Some roots) 1) <= q_maxh o /\
+Lemma canon_hdr_ro ro : roots_ok (hdr_roots ro) ->
+  dec_header_canon (enc_header ro 1) = Some (hdr_roots ro, 1).
+Proof.
+  destruct ro as [r|]; cbn [hdr_roots]; intros H.
+  - apply dec_header_enc; [exact H|unfold two64; lia].
+  - apply dec_header_enc_nil. unfold two64. lia.
+Qed.
+
+Definition limits_ok (o : qopts) (ro : option (list bytes)) (bs : list block) (npad : N) : Prop :=
+  blen (enc_header ro 1) <= q_maxh o /\
   Forall (rblock_ok (q_maxs o) (q_maxcid o)) bs /\
   (npad = 0 \/ q_zeof o = true).
 
-Lemma car_file_payload_le ct roots bs npad file :
-  car_file ct roots bs npad = Some file -> blen (payload_np roots bs npad) <= blen file.
+Lemma car_file_payload_le ct ro bs npad file :
+  car_file ct ro bs npad = Some file -> blen (payload_np ro bs npad) <= blen file.
 Proof.
   destruct ct as [|chi clo dpad ipad emb].
   - cbn [car_file]. intros H. inversion H. lia.
-  - intros H. destruct (car_file_v2 roots bs npad chi clo dpad ipad emb file H) as (ib & -> & _).
+  - intros H. destruct (car_file_v2 ro bs npad chi clo dpad ipad emb file H) as (ib & -> & _).
     rewrite v2_file_len'. lia.
 Qed.
 
-Lemma mk_arch_ok o roots bs npad :
-  roots_ok roots -> limits_ok o roots bs npad -> blen (payload_np roots bs npad) < two63 ->
-  arch_ok dec_header_canon o roots bs npad.
+Lemma mk_arch_ok o ro bs npad :
+  roots_ok (hdr_roots ro) -> limits_ok o ro bs npad -> blen (payload_np ro bs npad) < two63 ->
+  arch_ok dec_header_canon o ro bs npad.
 Proof.
   intros Hr (Hm & Hb & Hn) H63. split; try assumption.
-  - apply hdr_good_canon. exact Hr.
+  - apply canon_hdr_ro. exact Hr.
   - rewrite payload_np_split, !blen_app, blen_ld in H63. unfold ld_size in H63. lia.
 Qed.
 
-Lemma mk_file_ok o ct roots bs npad file :
-  car_file ct roots bs npad = Some file -> roots_ok roots -> limits_ok o roots bs npad ->
+Lemma mk_file_ok o ct ro bs npad file :
+  car_file ct ro bs npad = Some file -> roots_ok (hdr_roots ro) -> limits_ok o ro bs npad ->
   blen file < two63 -> (q_codec o = codec_sorted \/ q_codec o = codec_mh_sorted) ->
   match ct with
   | CV1 => True
   | CV2 chi clo _ _ emb => chi < two64 /\ clo < two64 /\ 10 <= q_maxh o /\
                            (emb <> None -> N.of_nat (length bs) < two31)
   end ->
-  file_ok dec_header_canon o ct roots bs npad file.
+  file_ok dec_header_canon o ct ro bs npad file.
 Proof.
-  intros Hf Hr Hl H63 Hc Hv. pose proof (car_file_payload_le ct roots bs npad file Hf) as Hle.
+  intros Hf Hr Hl H63 Hc Hv. pose proof (car_file_payload_le ct ro bs npad file Hf) as Hle.
   split; try assumption.
   - apply mk_arch_ok; try assumption. lia.
   - unfold idx_new. destruct Hc as [-> | ->]; discriminate.
@@ -322,21 +330,21 @@ Proof.
     destruct Hv as (H1 & H2 & H3 & H4). repeat split; try assumption.
 Qed.
 
-Lemma mk_supplied_ok sup si roots bs npad :
-  roots_ok roots -> blen (payload_np roots bs npad) < two63 ->
+Lemma mk_supplied_ok sup si ro bs npad :
+  roots_ok (hdr_roots ro) -> blen (payload_np ro bs npad) < two63 ->
   match sup with
   | None => si = None
-  | Some og => limits_ok og roots bs npad /\
-               exists i, gen_flat dec_header_canon og 0 (payload_np roots bs npad) = Ok i /\ si = Some i
+  | Some og => limits_ok og ro bs npad /\
+               exists i, gen_flat dec_header_canon og 0 (payload_np ro bs npad) = Ok i /\ si = Some i
   end ->
-  supplied_ok dec_header_canon sup si roots bs npad.
+  supplied_ok dec_header_canon sup si ro bs npad.
 Proof.
   intros Hr H63. destruct sup as [og|]; cbn [supplied_ok]; [|tauto].
   intros (Hl & Hi). split; [apply mk_arch_ok; assumption|exact Hi].
 Qed.
 
-Theorem C07_ro_full o ct roots bs npad file sup si :
-  car_file ct roots bs npad = Some file -> roots_ok roots -> limits_ok o roots bs npad ->
+Theorem C07_ro_full o ct ro bs npad file sup si :
+  car_file ct ro bs npad = Some file -> roots_ok (hdr_roots ro) -> limits_ok o ro bs npad ->
   blen file < two63 -> (q_codec o = codec_sorted \/ q_codec o = codec_mh_sorted) ->
   match ct with
   | CV1 => True
@@ -345,24 +353,24 @@ Theorem C07_ro_full o ct roots bs npad file sup si :
   end ->
   match sup with
   | None => si = None
-  | Some og => limits_ok og roots bs npad /\
-               exists i, gen_flat dec_header_canon og 0 (payload_np roots bs npad) = Ok i /\ si = Some i
+  | Some og => limits_ok og ro bs npad /\
+               exists i, gen_flat dec_header_canon og 0 (payload_np ro bs npad) = Ok i /\ si = Some i
   end ->
   exists s, ro_open dec_header_canon o file si = Ok s /\
-    br_read_all no_hash dec_header_canon (scan_opts o) file = Ok (ct_version ct, roots, mkscan bs EEof) /\
+    br_read_all no_hash dec_header_canon (scan_opts o) file = Ok (ct_version ct, hdr_roots ro, mkscan bs EEof) /\
     ro_keys dec_header_canon s = KKeys (ref_keys (q_whole o) bs) None /\
-    ro_roots dec_header_canon s = OKeys roots /\
+    ro_roots dec_header_canon s = OKeys (hdr_roots ro) /\
     forall key kp, cid_parse key = Some kp ->
       getsize_spec o key kp bs (ro_getsize s key) /\
       (id_guard o (index_wid o ct sup) kp = true ->
          ro_has s key = OBool (ref_has o key kp bs) /\ get_spec o key kp bs (ro_get s key)).
 Proof.
-  intros Hf Hr Hl H63 Hc Hv Hs. pose proof (car_file_payload_le ct roots bs npad file Hf) as Hle.
-  apply (ro_refines_scan dec_header_canon o ct roots bs npad file sup si); [apply mk_file_ok; assumption|apply mk_supplied_ok; try assumption; lia].
+  intros Hf Hr Hl H63 Hc Hv Hs. pose proof (car_file_payload_le ct ro bs npad file Hf) as Hle.
+  apply (ro_refines_scan dec_header_canon o ct ro bs npad file sup si); [apply mk_file_ok; assumption|apply mk_supplied_ok; try assumption; lia].
 Qed.
 
-Theorem C07_sto_full o ct roots bs npad file :
-  car_file ct roots bs npad = Some file -> roots_ok roots -> limits_ok o roots bs npad ->
+Theorem C07_sto_full o ct ro bs npad file :
+  car_file ct ro bs npad = Some file -> roots_ok (hdr_roots ro) -> limits_ok o ro bs npad ->
   blen file < two63 -> (q_codec o = codec_sorted \/ q_codec o = codec_mh_sorted) ->
   match ct with
   | CV1 => True
@@ -370,16 +378,16 @@ Theorem C07_sto_full o ct roots bs npad file :
                            (emb <> None -> N.of_nat (length bs) < two31)
   end ->
   exists s, sto_open dec_header_canon o file = Ok s /\
-    br_read_all no_hash dec_header_canon (scan_opts o) file = Ok (ct_version ct, roots, mkscan bs EEof) /\
-    sto_roots s = OKeys roots /\
+    br_read_all no_hash dec_header_canon (scan_opts o) file = Ok (ct_version ct, hdr_roots ro, mkscan bs EEof) /\
+    sto_roots s = OKeys (hdr_roots ro) /\
     forall key kp, cid_parse key = Some kp -> id_guard o (index_wid o ct None) kp = true ->
       ro_has s key = OBool (ref_has o key kp bs) /\ get_spec o key kp bs (sto_get s key).
 Proof.
-  intros Hf Hr Hl H63 Hc Hv. apply (sto_refines_scan dec_header_canon o ct roots bs npad file). apply mk_file_ok; assumption.
+  intros Hf Hr Hl H63 Hc Hv. apply (sto_refines_scan dec_header_canon o ct ro bs npad file). apply mk_file_ok; assumption.
 Qed.
 
-Theorem C07_agree_full o ct roots bs npad file sup si s1 s2 :
-  car_file ct roots bs npad = Some file -> roots_ok roots -> limits_ok o roots bs npad ->
+Theorem C07_agree_full o ct ro bs npad file sup si s1 s2 :
+  car_file ct ro bs npad = Some file -> roots_ok (hdr_roots ro) -> limits_ok o ro bs npad ->
   blen file < two63 -> (q_codec o = codec_sorted \/ q_codec o = codec_mh_sorted) ->
   match ct with
   | CV1 => True
@@ -388,8 +396,8 @@ Theorem C07_agree_full o ct roots bs npad file sup si s1 s2 :
   end ->
   match sup with
   | None => si = None
-  | Some og => limits_ok og roots bs npad /\
-               exists i, gen_flat dec_header_canon og 0 (payload_np roots bs npad) = Ok i /\ si = Some i
+  | Some og => limits_ok og ro bs npad /\
+               exists i, gen_flat dec_header_canon og 0 (payload_np ro bs npad) = Ok i /\ si = Some i
   end ->
   ro_open dec_header_canon o file si = Ok s1 -> sto_open dec_header_canon o file = Ok s2 ->
   ro_roots dec_header_canon s1 = sto_roots s2 /\
@@ -397,8 +405,8 @@ Theorem C07_agree_full o ct roots bs npad file sup si s1 s2 :
     id_guard o (index_wid o ct sup) kp = true -> id_guard o (index_wid o ct None) kp = true ->
     ro_has s1 key = ro_has s2 key /\ (consistent bs -> ro_get s1 key = sto_get s2 key).
 Proof.
-  intros Hf Hr Hl H63 Hc Hv Hs. pose proof (car_file_payload_le ct roots bs npad file Hf) as Hle.
-  apply (frontends_agree dec_header_canon o ct roots bs npad file sup si s1 s2); [apply mk_file_ok; assumption|apply mk_supplied_ok; try assumption; lia].
+  intros Hf Hr Hl H63 Hc Hv Hs. pose proof (car_file_payload_le ct ro bs npad file Hf) as Hle.
+  apply (frontends_agree dec_header_canon o ct ro bs npad file sup si s1 s2); [apply mk_file_ok; assumption|apply mk_supplied_ok; try assumption; lia].
 Qed.
 
 (* the guard excludes exactly the documented corner *)
